@@ -30,7 +30,15 @@ Tie lemmas for C04: facts regenerated from /repo's current source on every run. 
 (9) the lock structure of GangCache.getGangFromCacheByGangId: one write Lock, no RLock, one deferred Unlock, no
     explicit Unlock, gangItems / NewGang not touched before the Lock, one lookup and one store of gangItems — get-or-create
     is ONE critical section (the `sections = 1` shape of Proofs/C04ExtCreate.lean), and `newGang_race_atomic_safe`
-    instantiated at the extracted number of sections.
+    instantiated at the extracted number of sections;
+(10) which match policy and which mode are in force (model: getMatchPolicy / resolvePolicy / normStrict):
+    GetGangMatchPolicy returns the annotation unless empty, else the alias annotation — no constant of its own;
+    both initialisation paths fall back to args.DefaultMatchPolicy exactly for "" and for a value that is none of
+    the three constants, and store the result; the mode falls back to GangModeStrict exactly for "" and for a value
+    that is neither constant (exact `!=`, no case folding) and the stored value is what Unreserve / AfterPostFilter
+    compare with `== GangModeStrict`; the five string constants; v1 defaulting replaces only a nil DefaultMatchPolicy.
+    (Statement-level ties: a rename of the local variables `matchPolicy` / `mode` / `policy` breaks them without
+    breaking the property — reported as no-failing-input-found.)
 -/
 namespace KoordVerif.C04
 open KoordVerif.Generated
@@ -138,5 +146,50 @@ theorem tie_getOrCreate_unique (progs : List (GangId × CAct)) (sched : List Nat
   have e : C04.getGangSections = 1 := by decide
   rw [e]
   exact (cinv_run _ sched (cinv_start progs)).holds
+
+theorem tie_match_policy_getter :
+    C04.matchPolicyGetter =
+      ["policy:=obj.GetAnnotations()[AnnotationGangMatchPolicy]", "if policy!=\"\"", "return policy",
+       "return obj.GetAnnotations()[AnnotationAliasGangMatchPolicy]"] := by decide
+
+theorem tie_policy_resolution :
+    C04.policyResolution.map (·.1) = ["tryInitByPodConfig", "tryInitByPodGroup"] ∧
+    C04.policyResolution.map (fun e => e.2.drop 1) = List.replicate 2
+      ["if matchPolicy==\"\"", "matchPolicy=args.DefaultMatchPolicy",
+       "if matchPolicy!=extension.GangMatchPolicyOnlyWaiting&&matchPolicy!=extension.GangMatchPolicyWaitingAndRunning&&matchPolicy!=extension.GangMatchPolicyOnceSatisfied",
+       "matchPolicy=args.DefaultMatchPolicy", "gang.GangMatchPolicy=matchPolicy"] ∧
+    C04.policyResolution.map (fun e => e.2.take 1) =
+      [["matchPolicy:=extension.GetGangMatchPolicy(pod)"], ["matchPolicy:=extension.GetGangMatchPolicy(pg)"]] := by
+  decide
+
+theorem tie_mode_resolution :
+    C04.modeResolution.map (fun e => e.2.drop 1) = List.replicate 2
+      ["if mode==\"\"", "mode=extension.GangModeStrict",
+       "if mode!=extension.GangModeStrict&&mode!=extension.GangModeNonStrict", "mode=extension.GangModeStrict",
+       "gang.Mode=mode"] ∧
+    C04.modeResolution.map (fun e => e.2.take 1) =
+      [["mode:=pod.Annotations[extension.AnnotationGangMode]"], ["mode:=pg.Annotations[extension.AnnotationGangMode]"]] := by
+  decide
+
+/-- the stored mode / policy strings are compared exactly, and only with these constants -/
+theorem tie_mode_and_policy_tests :
+    C04.modeAndPolicyTests =
+      ["AfterPostFilter:gang.getGangMatchPolicy()==extension.GangMatchPolicyOnceSatisfied",
+       "AfterPostFilter:gang.getGangMode()==extension.GangModeStrict",
+       "BeforePreFilter:gang.getGangMatchPolicy()==extension.GangMatchPolicyOnceSatisfied",
+       "PreEnqueue:gang.getGangMatchPolicy()==extension.GangMatchPolicyOnceSatisfied",
+       "Unreserve:gang.getGangMatchPolicy()==extension.GangMatchPolicyOnceSatisfied",
+       "Unreserve:gang.getGangMode()==extension.GangModeStrict"] := by decide
+
+theorem tie_gang_string_consts :
+    C04.gangStringConsts =
+      [("GangModeStrict", "\"Strict\""), ("GangModeNonStrict", "\"NonStrict\""),
+       ("GangMatchPolicyOnlyWaiting", "\"only-waiting\""), ("GangMatchPolicyWaitingAndRunning", "\"waiting-and-running\""),
+       ("GangMatchPolicyOnceSatisfied", "\"once-satisfied\"")] := by decide
+
+theorem tie_default_match_policy_defaulting :
+    C04.defaultMatchPolicyDefaulting =
+      (["if obj.DefaultMatchPolicy==nil", "obj.DefaultMatchPolicy=defaultGangMatchPolicy"],
+       "ptr.To[string](extension.GangMatchPolicyOnceSatisfied)") := by decide
 
 end KoordVerif.C04
